@@ -28,11 +28,98 @@ ASSUMPTIONS = [
 BUDGET = {"quick": (1600, 240), "thorough": (16000, 2700)}
 
 
+def class_scenarios():
+    """a class with a class method, a static method and an instance method whose bodies read cls / self: every run of
+    statements of each body is extracted, to each kind the API offers (behavioural oracle; refusal is an answer)"""
+    from hypothesis import strategies as st
+
+    @st.composite
+    def gen(draw):
+        kname = draw(st.sampled_from(["k", "factor"]))
+        first = draw(st.sampled_from(["cls", "klass"]))
+        src = (
+            "class A:\n    %s = 2\n    def __init__(self):\n        self.t = 1\n"
+            "    @classmethod\n    def make(%s, a):\n        b = a * %s.%s\n        c = b + %s.%s\n        d = c - a\n        return d + a\n"
+            "    @staticmethod\n    def st(a):\n        b = a * 3\n        c = b + 1\n        return c\n"
+            "    def inst(self, a):\n        b = a * self.t\n        c = b + type(self).%s\n        return c\n"
+            "print(A.make(3), A.st(2), A().inst(4))\nclass B(A):\n    %s = 5\nprint(B.make(1), B().inst(2))\n"
+        ) % (kname, first, first, kname, first, kname, kname, kname)
+        return {"scenario": "class_methods", "src": src, "host": draw(st.sampled_from(["make", "st", "inst"])), "first": draw(st.integers(0, 2)), "count": draw(st.integers(1, 3)),
+                "kind": draw(st.sampled_from([None, None, "classmethod", "staticmethod", "method", "function"])), "global_": draw(st.integers(0, 3)) == 0}
+
+    return gen()
+
+
+def _evaluate_class_scenario(case):
+    from rope.base import exceptions as rex
+    from rope.base.project import Project
+    from rope.refactor.extract import ExtractMethod
+
+    out = core.Outcome()
+    src = case["src"]
+    base = runner.run({"main.py": src}, "main.py")
+    if base[1]:
+        raise core.HarnessError("scenario raises %s\n%s" % (base[1], runner.LAST_TB))
+    tree = ast.parse(src)
+    fn = next(n for n in ast.walk(tree) if isinstance(n, ast.FunctionDef) and n.name == case["host"])
+    body = fn.body
+    i = min(case["first"], len(body) - 1)
+    j = min(i + case["count"], len(body))
+    lines, starts = _offsets(src)
+    start = starts[body[i].lineno - 1]
+    end = starts[body[j - 1].end_lineno - 1] + len(lines[body[j - 1].end_lineno - 1])
+    out.labels["scenario:class_methods:" + case["host"]] += 1
+    root = core.fresh_dir("c03c")
+    project = Project(root, ropefolder=None)
+    try:
+        with open(root + "/mod.py", "w") as fh:
+            fh.write(src)
+        kw = {"global_": case["global_"]}
+        if case["kind"]:
+            kw["kind"] = case["kind"]
+        out.evals += 1
+        sub = {"host": case["host"], "region": [start, end], "kw": kw}
+        try:
+            changes = ExtractMethod(project, project.get_file("mod.py"), start, end).get_changes("helper", **kw)
+        except rex.RopeError:
+            out.refused += 1
+            return out
+        except Exception as e:
+            out.notes["crashed:%s (see C09)" % type(e).__name__] += 1
+            return out
+        new = changes.changes[0].new_contents
+        where = "extract %r from %s with %s\n%s" % (src[start:end], case["host"], kw, _udiff(src, new))
+        try:
+            compile(new, "mod.py", "exec")
+        except SyntaxError as e:
+            out.violation("C03:scenario:class_methods:does_not_compile", "%s\n%s" % (e, where), sub)
+            return out
+        got = runner.run({"main.py": new}, "main.py")
+        if got != base:
+            out.violation("C03:scenario:class_methods:behaviour%s" % (":" + got[1] if got[1] else ""), "output %r/%s -> %r/%s\n%s" % (base[0], base[1], got[0], got[1], where), sub)
+            return out
+        out.nontrivial.add(("cm", case["host"], case["kind"]))
+    finally:
+        project.close()
+        core.rmtree(root)
+    return out
+
+
+def _udiff(a, b):
+    import difflib
+
+    return "".join(difflib.unified_diff(a.splitlines(True), b.splitlines(True), "before", "after", n=0))[:1500]
+
+
 def strategy(tier):
-    return funcgen.modules()
+    from hypothesis import strategies as st
+
+    return st.one_of(*([funcgen.modules()] * 15 + [class_scenarios()]))
 
 
 def describe(case):
+    if case.get("scenario"):
+        return {k: v for k, v in case.items()}
     return {"src": case["src"][:700], "flags": case["flags"]}
 
 
@@ -327,6 +414,8 @@ def must_be_refused(host, start, end, starts):
 
 
 def evaluate(case, env):
+    if case.get("scenario") == "class_methods":
+        return _evaluate_class_scenario(case)
     from rope.base import exceptions as rex
     from rope.base.project import Project
     from rope.refactor.extract import ExtractMethod, ExtractVariable
